@@ -103,7 +103,7 @@ def exc_sig(e):
 class Acc:
     """Per-unit accumulator, merged by the engine."""
 
-    MAX_VIOL = 400
+    MAX_VIOL = int(os.environ.get("FMC_MAX_VIOL", "400"))
 
     def __init__(self):
         self.evaluations = 0
@@ -119,6 +119,7 @@ class Acc:
         self.tables = {}
         self.undecided = 0
         self.caps = []
+        self.known = {}  # key of a KNOWN_FINDINGS line -> [count, example case, text]
 
     # -- recording ---------------------------------------------------------------------------
     def case(self, case, outcome, nontrivial=False, key=None, sample=True):
@@ -157,6 +158,11 @@ class Acc:
             self.outcomes[k] = self.outcomes.get(k, 0) + v
         self.states |= o.states
         self.nontrivial |= o.nontrivial
+        for k, (n, ex, txt) in o.known.items():
+            if k in self.known:
+                self.known[k][0] += n
+            else:
+                self.known[k] = [n, ex, txt]
         self.nviol += o.nviol
         self.viol.extend(o.viol[: max(0, self.MAX_VIOL * 4 - len(self.viol))])
         for s in o.samples:
@@ -179,6 +185,33 @@ def _alarm(signum, frame):
 
 _MOD = None
 _UNIT_TIMEOUT = 600
+_FINDINGS = None
+
+
+def _triage(mod, acc, start):
+    """Move violations that match a recorded finding out of the violation list (so that they never use up the cap)."""
+    global _FINDINGS
+    if _FINDINGS is None:
+        _FINDINGS = load_findings(mod.ID)
+    if not _FINDINGS:
+        return
+    keep = []
+    for v in acc.viol[start:]:
+        try:
+            cls = mod.classify(v["case"], v["clause"], v["sig"], v["detail"]) if hasattr(mod, "classify") else "-"
+        except Exception:
+            cls = "-"
+        f = match_finding(_FINDINGS, v["clause"], v["sig"], cls)
+        if f is None:
+            keep.append(v)
+        else:
+            k = f.get("key", "?")
+            if k in acc.known:
+                acc.known[k][0] += 1
+            else:
+                acc.known[k] = [1, v["case"], f["text"]]
+            acc.nviol -= 1
+    acc.viol[start:] = keep
 
 
 def _run_unit(args):
@@ -190,9 +223,12 @@ def _run_unit(args):
     case = None
     try:
         for case in mod.expand(unit):
+            nbefore = len(acc.viol)
             try:
                 with quiet():
                     mod.check_case(case, acc)
+                if len(acc.viol) > nbefore:
+                    _triage(mod, acc, nbefore)
             except UnitTimeout:
                 raise
             except Exception as e:  # an exception the oracle did not anticipate
@@ -264,7 +300,13 @@ def load_findings(pid):
 
 def match_finding(findings, clause, sig, cls):
     for f in findings:
-        if f.get("clause") == clause and f.get("class") == cls:
+        fc = f.get("class", "")
+        if "|" in fc:  # any '+'-combination of the listed atoms
+            atoms = set(fc.split("|"))
+            cls_ok = cls != "-" and all(a in atoms for a in cls.split("+"))
+        else:
+            cls_ok = fc == cls
+        if f.get("clause") == clause and cls_ok:
             fs = f.get("sig", "*")
             if fs == "*" or fs == sig or (fs.endswith("*") and sig.startswith(fs[:-1])):
                 return f
@@ -362,7 +404,7 @@ def run_check(pid, tier, seed):
     extra = mod.extra(tier, seed, acc) if hasattr(mod, "extra") else None
 
     findings = load_findings(pid)
-    known = {}
+    known = {k: {"n": n, "example": ex, "text": txt} for k, (n, ex, txt) in acc.known.items()}
     real = []
     for v in acc.viol:
         try:
